@@ -227,6 +227,16 @@ def body_bed(ch, ctx):
         fg, ft_ = got_g.split("\t"), got.split("\t")
         same = len(fg) == 12 and fg[:3] + fg[4:] == ft_[:3] + ft_[4:] and fg[3] == ("g1" if name_field == "ID" else ".")
         ctx.check(same, "bed12-field-differs", dict(sig, field="via-gene-related-at-two-levels"), file=lines, got=got_g, transcript_line=got)
+    # blocks of two types, one nested in the other: the block that starts last stops before the feature's end, so the blocks
+    # "do not span the feature" whatever an earlier, longer block reaches
+    if len(exons) == 1 and cds_opt == "inner" and mode == "thick" and cds and cds[0][1] < te and spans_ok:
+        try:
+            line = db.bed12(arg, block_featuretype=[btype, "CDS"], name_field=name_field)
+            ctx.fail("bed12-did-not-raise-on-span-mismatch", dict(sig, nested_blocks=True), file=lines, got=line)
+        except ValueError:
+            pass
+        except Exception as ex:
+            ctx.fail("bed12-raised", dict(sig, exc=type(ex).__name__, nested_blocks=True), file=lines, message=str(ex)[:200])
     # the alternative converter
     if mode == "thick":
         try:
